@@ -66,6 +66,7 @@ struct Knobs {
 	int pendq		= 1;	// log isPending vectors in the first guard of single-request rounds
 	int structDump	= 0;	// dump structure() / activityHistory() after each operation
 	int logAnswers	= 0;	// record select/rank/utility callbacks too ('a' lines)
+	int pNoPayload	= 0;	// per-mille: a request is issued without payload
 	int planDump	= 0;	// dump every region's plan after each operation (Plan and CPlan iteration)
 };
 
